@@ -849,6 +849,7 @@ def run(ctx: Ctx) -> None:
 
 # ---------------------------------------------------------------------------
 WITNESSES = [
+    {"name": "seeded-C15-10", "file": "core/grammars/json_schema.py", "old": "\n    def add_object(self, obj: StrKeyMapping) -> None:\n        with self.__handle_update():\n            super().add_object(obj)\n\n\n", "new": "\n\n", "expect": "15.9", "note": "genson object strategy no longer applies the update switch in add_object (remove"},
     {"name": "update-brings-the-defaults-of-the-excluded-names", "file": BG, "old": "k: v for k, v in grammar._defaults.items() if k not in excluded_names", "new": "k: v for k, v in grammar._defaults.items() if k in excluded_names", "expect": "15.2"},
     {"name": "update-requires-the-excluded-names", "file": BG, "old": "(grammar.keys() - excluded_names).intersection(", "new": "(grammar.keys() & set(excluded_names)).intersection(", "expect": "15.2"},
     {"name": "setstate-leaves-required-in-the-builder", "file": JG, "old": "        # The required names are handled by _required_names.\n        self.__schema_builder.required.clear()\n", "new": "", "expect": "15.8"},
